@@ -230,19 +230,24 @@ class LinCtx:
         self.solver_time += time.time() - t0
         return {b"T": True, b"F": False}.get(out)
 
-    def wrap_search(self, mismatch, extra_forms=(), per_query_ms=2500, budget_s=150):
+    def wrap_search(self, mismatch, extra_forms=(), per_query_ms=2500, budget_s=150, realise=False):
         """Lost-carry search, used when the solver gives up on an identity.  For every truncation recorded by this context (and every extra form, e.g. a
         carry the assembly interpreter saw dropped): is there an input that makes its quotient non-zero (small satisfiability queries on a fresh
         incremental-core solver)?  `mismatch(env)` is evaluated at each model; the first environment (name -> value) for which it is true is
         returned, else None.  An input found this way is a concrete counterexample in its own right."""
         t0 = time.time()
         base = list(self.solver.assertions())
+        if realise:
+            # the opaque word products must really be products in the model (non-linear queries; the model is then a real input)
+            for i, k in self.kind.items():
+                if isinstance(k, tuple) and k[0] == "prod":
+                    base.append(self.zv[i] == self.z(k[1]) * self.z(k[2]))
         cands = [q for (r, q) in self.wraps.values() if not q.is_const()] + [f for f in extra_forms if isinstance(f, LV) and not f.is_const()]
         for q in cands:
             for cond in ([self.z(q) >= 1] if q.lo >= 0 else [self.z(q) >= 1, self.z(q) <= -1]):
                 if time.time() - t0 > budget_s:
                     return None
-                s = z3.SimpleSolver()      # the default tactic pipeline answers these small satisfiable queries poorly
+                s = z3.Solver() if realise else z3.SimpleSolver()      # linear case: the default tactic pipeline answers these small satisfiable queries poorly
                 s.set("timeout", per_query_ms)
                 s.add(*base)
                 s.add(cond)
